@@ -137,7 +137,8 @@ verus_unit("oodv", "oodv", ["C03", "C06", "C12", "C04", "C05"], [
     "FriProof::parse_layers (every number of layers, every content, every power-of-two domain size and folding factor: Ok exactly when every layer's domain D / ff^i can still be folded and the layer is a canonical encoding for the folded domain D / ff^(i+1); the results are the layers' values and batch proofs in order; the enumerate index - used in error texts only - is dropped: listed rewrite)",
     "OodFrame::set_trace_states (every frame: the trace-state section is the byte 2 followed by the encodings of the current / next evaluations interleaved per column, the Lagrange section the number of Lagrange kernel values followed by their encodings, and the returned digest - what the prover channel reseeds the coin with - is hash_elements of exactly those values in that order, i.e. TraceOodFrame::hash; other sections untouched)",
     "OodFrame::set_constraint_evaluations (stores exactly the encodings of the evaluations; other sections untouched)",
-    "Queries::new (every non-empty list of equally long rows: the value bytes are the encodings of the rows in order, the path bytes are serialize_nodes of the batch proof; the three assertions are the documented pre-conditions)"])
+    "Queries::new (every non-empty list of equally long rows: the value bytes are the encodings of the rows in order, the path bytes are serialize_nodes of the batch proof; the three assertions are the documented pre-conditions)",
+    "ProverChannel::commit_trace / commit_constraints / send_ood_trace_states / send_ood_constraint_evaluations (every message is stored in the proof and absorbed by the coin once, as exactly the stored value: a root as itself, an out-of-domain frame as hash_elements of the stored values; nothing else changes; the coin is a ghost log, Commitments::add a named contract)"])
 
 
 verus_unit("proofserdev", "proofserdev", ["C12", "C03"], [
